@@ -377,7 +377,9 @@ def run_case(case, variant=None, keep=False):
             viol("result-after-failed-handshake", "RESULT message sent on a connection whose handshake failed: types %r" % types)
         if ended[0] not in ("eof", "reset"):
             viol("not-closed", "connection not closed after failed handshake: %r" % (ended,))
-        need_fail = (complete and ser_known) or stalled      # (a stalled message is answered in the default serializer: its header was not accepted)
+        # (a stalled message is answered in the default serializer: its header was not accepted; so is a connect that is turned away
+        #  because every worker is busy - whatever serializer the peer named, the daemon can say why)
+        need_fail = (complete and (ser_known or variant == "thread-poolfull")) or stalled
         if val["mode"] == "raise" and val.get("exc") == "ConnectionClosedError" and wellformed and variant != "thread-poolfull":
             need_fail = need_fail       # (kept: the statement demands the reason also here)
         if need_fail:
